@@ -32,7 +32,9 @@ def classify_exception(exc):
         last = tb.tb_frame.f_code.co_filename
         tb = tb.tb_next
     here = os.path.dirname(os.path.abspath(__file__))
-    if last is not None and os.path.abspath(last).startswith(os.path.dirname(here)):
+    # (compiled extension modules report relative .pyx paths: only an absolute
+    # path under /verif is ours)
+    if last is not None and os.path.isabs(last) and os.path.abspath(last).startswith(os.path.dirname(here)):
         return "harness"
     return "library"
 
@@ -40,6 +42,9 @@ def classify_exception(exc):
 def run_case(mod, rec, name, fn, seed, idx, tier):
     from .core import jsonable
     rng = np.random.default_rng([seed, int(mod.PROP[1:]), idx])
+    # library code that draws from numpy's global generator (random initial
+    # states, probes) must replay too
+    np.random.seed((seed * 1000003 + int(mod.PROP[1:]) * 7919 + idx) % (2 ** 32))
     rec.case = {"prop": mod.PROP, "workload": name, "seed": seed, "idx": idx,
                 "tier": tier}
     try:
